@@ -15,6 +15,11 @@
 //	W:<proto>:<holder>:<sched>:<value>   Store whose storage writer misbehaves on its i-th Write
 //	                             (sched = ","-separated o | f fail this call | s<n> short write)
 //
+//	N:<sys>:<inner op>           NESTED: the storage opener (read opener of a load, write opener of a
+//	                             store) of the NEXT op performs <inner op> (C:... or G:...) before it
+//	                             returns the reader / writer — on the same link system (sys=1) or on a
+//	                             second one sharing registry, storage and trust flag (sys=2).  Its
+//	                             observation comes first; "notrun" when the opener was never reached.
 //	C:<proto>:<holder>:<value>   ComputeLink
 //	G:<form>:<link binary hex>   form l=Load r=LoadRaw p=LoadPlusRaw f=Fill
 //
@@ -46,7 +51,9 @@ import (
 )
 
 type op struct {
-	kind   byte // S W C G
+	kind   byte // S W C G N
+	inner  *op  // N: the nested operation
+	sys    int  // N: 1 = same link system, 2 = the second one
 	sched  string
 	proto  lib.LkProto
 	holder string
@@ -61,6 +68,8 @@ func (o *op) text() string {
 		return fmt.Sprintf("%c:%s:%s:%s", o.kind, o.proto.Spec(), o.holder, o.val.Text())
 	case 'W':
 		return fmt.Sprintf("W:%s:%s:%s:%s", o.proto.Spec(), o.holder, o.sched, o.val.Text())
+	case 'N':
+		return fmt.Sprintf("N:%d:%s", o.sys, o.inner.text())
 	}
 	return fmt.Sprintf("G:%c:%s", o.form, lib.Hex(o.link))
 }
@@ -71,6 +80,20 @@ func parseOp(s string) (*op, error) {
 		return nil, fmt.Errorf("bad op %q", s)
 	}
 	switch f[0] {
+	case "N":
+		g := strings.SplitN(s, ":", 3)
+		if len(g) != 3 {
+			return nil, fmt.Errorf("bad op %q", s)
+		}
+		in, err := parseOp(g[2])
+		if err != nil {
+			return nil, err
+		}
+		sys := 1
+		if g[1] == "2" {
+			sys = 2
+		}
+		return &op{kind: 'N', inner: in, sys: sys}, nil
 	case "W":
 		g := strings.SplitN(s, ":", 5)
 		if len(g) != 5 {
@@ -106,8 +129,10 @@ func parseOp(s string) (*op, error) {
 
 type world struct {
 	sched []string // write faults of the store in progress (nil: honest writer)
-	reg  *lib.LkReg
-	lsys linking.LinkSystem
+	hook  func()   // nested operation to perform inside the next storage opener call
+	reg   *lib.LkReg
+	lsys  linking.LinkSystem
+	lsys2 linking.LinkSystem // a second link system on the same registry, storage and trust flag
 	mem  *memstore.Store
 	cid  *cidlink.Memory
 }
@@ -124,8 +149,24 @@ func newWorld(kind string, trusted bool, reg *lib.LkReg) *world {
 		w.lsys.SetReadStorage(w.mem)
 		w.lsys.SetWriteStorage(w.mem)
 	}
+	w.lsys2 = reg.LinkSystem()
+	w.lsys2.TrustedStorage = trusted
+	w.lsys2.StorageReadOpener = w.lsys.StorageReadOpener
+	w.lsys2.StorageWriteOpener = w.lsys.StorageWriteOpener
+	runHook := func() {
+		if h := w.hook; h != nil {
+			w.hook = nil
+			h()
+		}
+	}
+	origR := w.lsys.StorageReadOpener
+	w.lsys.StorageReadOpener = func(lc linking.LinkContext, l datamodel.Link) (io.Reader, error) {
+		runHook() // e.g. a read-through cache consulting its origin while the outer load is in progress
+		return origR(lc, l)
+	}
 	orig := w.lsys.StorageWriteOpener
 	w.lsys.StorageWriteOpener = func(lc linking.LinkContext) (io.Writer, linking.BlockWriteCommitter, error) {
+		runHook()
 		wr, commit, err := orig(lc)
 		if err != nil || w.sched == nil {
 			return wr, commit, err
@@ -179,14 +220,14 @@ func newRunner(kind string, trusted bool, reg *lib.LkReg) *runner {
 	return &runner{w: newWorld(kind, trusted, reg), tab: lib.NewLkTables()}
 }
 
-func (rn *runner) do(o *op) {
+// exec performs one S/W/C/G operation on the given link system and returns its observation.
+func (rn *runner) exec(o *op, lsys *linking.LinkSystem) string {
 	w, tab := rn.w, rn.tab
 	switch o.kind {
 	case 'S', 'C', 'W':
 		n, err := lib.BuildHolder(o.holder, o.val)
 		if err != nil {
-			rn.obs = append(rn.obs, "builderr/-")
-			return
+			return "builderr/-"
 		}
 		w.sched = nil
 		if o.kind == 'W' {
@@ -212,9 +253,9 @@ func (rn *runner) do(o *op) {
 		err = lib.Safely(func() error {
 			var e error
 			if o.kind == 'S' || o.kind == 'W' {
-				l, e = w.lsys.Store(linking.LinkContext{}, o.proto.LP(), n)
+				l, e = lsys.Store(linking.LinkContext{}, o.proto.LP(), n)
 			} else {
-				l, e = w.lsys.ComputeLink(o.proto.LP(), n)
+				l, e = lsys.ComputeLink(o.proto.LP(), n)
 			}
 			return e
 		})
@@ -222,15 +263,14 @@ func (rn *runner) do(o *op) {
 			l = nil
 		}
 		w.sched = nil
-		rn.obs = append(rn.obs, linkObs(lib.LkErrClass(err, "encode"), l))
 		if err == nil && l != nil {
 			rn.links = append(rn.links, l.Binary())
 		}
+		return linkObs(lib.LkErrClass(err, "encode"), l)
 	case 'G':
 		l, err := lib.LkLinkFromBinary(o.link)
 		if err != nil {
-			rn.obs = append(rn.obs, "badlink/-/-")
-			return
+			return "badlink/-/-"
 		}
 		cl := l.(cidlink.Link)
 		pfx := cl.Prefix()
@@ -249,18 +289,18 @@ func (rn *runner) do(o *op) {
 			var e error
 			switch o.form {
 			case 'l':
-				n, e = w.lsys.Load(linking.LinkContext{}, l, basicnode.Prototype.Any)
+				n, e = lsys.Load(linking.LinkContext{}, l, basicnode.Prototype.Any)
 			case 'f':
 				nb := basicnode.Prototype.Any.NewBuilder()
-				e = w.lsys.Fill(linking.LinkContext{}, l, nb)
+				e = lsys.Fill(linking.LinkContext{}, l, nb)
 				if e == nil {
 					n = nb.Build()
 				}
 			case 'r':
-				raw, e = w.lsys.LoadRaw(linking.LinkContext{}, l)
+				raw, e = lsys.LoadRaw(linking.LinkContext{}, l)
 				rawReturned = e == nil || len(raw) > 0
 			case 'p':
-				n, raw, e = w.lsys.LoadPlusRaw(linking.LinkContext{}, l, basicnode.Prototype.Any)
+				n, raw, e = lsys.LoadPlusRaw(linking.LinkContext{}, l, basicnode.Prototype.Any)
 				rawReturned = e == nil || len(raw) > 0
 			}
 			return e
@@ -268,9 +308,35 @@ func (rn *runner) do(o *op) {
 		if lib.IsPanic(err) {
 			n, raw, rawReturned = nil, nil, false
 		}
-		rn.obs = append(rn.obs, loadObs(lib.LkErrClass(err, "decode"), n, raw, rawReturned))
+		return loadObs(lib.LkErrClass(err, "decode"), n, raw, rawReturned)
 	}
+	return "badop"
 }
+
+// do executes the next op of the history.  An N op only arms the hook: its inner operation runs
+// inside the storage opener of the following op and its observation slot is filled in then.
+func (rn *runner) do(o *op) {
+	if o.kind == 'N' {
+		slot := len(rn.obs)
+		rn.obs = append(rn.obs, "notrun")
+		inner, sys := o.inner, o.sys
+		rn.w.hook = func() {
+			ls := &rn.w.lsys
+			if sys == 2 {
+				ls = &rn.w.lsys2
+			}
+			savedSched := rn.w.sched
+			rn.obs[slot] = rn.exec(inner, ls)
+			rn.w.sched = savedSched
+		}
+		return
+	}
+	r := rn.exec(o, &rn.w.lsys)
+	rn.w.hook = nil // an opener that was never reached: the nested operation did not run
+	rn.obs = append(rn.obs, r)
+}
+
+
 
 func (rn *runner) finish() (string, string) {
 	var ents []string
@@ -442,6 +508,40 @@ func genHistory(r *lib.Rng, maxOps int) (string, bool, *lib.LkReg, []*op) {
 	var pool []made // values made so far
 	var protos []lib.LkProto
 	live := newRunner(kind, trusted, reg) // runs alongside, to learn the links
+	// nest: the next op's storage opener first performs another operation — mostly with the SAME
+	// hash function as the outer one (a hasher shared between overlapping operations would be
+	// corrupted), on the same or on the second link system
+	nest := func(mht uint64) {
+		var in *op
+		if len(live.links) > 0 && r.Intn(2) == 0 {
+			// prefer a link with the same hash function
+			cands := live.links
+			var same []string
+			for _, l := range cands {
+				if cl, err := lib.LkLinkFromBinary(l); err == nil && cl.(cidlink.Link).Prefix().MhType == mht {
+					same = append(same, l)
+				}
+			}
+			if len(same) > 0 && r.Intn(4) != 0 {
+				cands = same
+			}
+			in = &op{kind: 'G', form: "rlpf"[r.Intn(4)], link: cands[r.Intn(len(cands))]}
+		} else {
+			c := pick()
+			if c == lib.LkDagPb {
+				c = lib.LkDagCbor
+			}
+			v := r.LkGenVal(implFor(reg, c))
+			p := lib.LkProto{Version: 1, Codec: c, MhType: mht, MhLen: -1}
+			if r.Intn(4) == 0 {
+				p = genProto(r, c)
+			}
+			in = &op{kind: 'C', proto: p, holder: "basic", val: v}
+		}
+		n := &op{kind: 'N', inner: in, sys: 1 + r.Intn(2)}
+		ops = append(ops, n)
+		live.do(n)
+	}
 	for len(ops) < nops {
 		switch k := r.Intn(20); {
 		case k < 11 || len(live.links) == 0: // store / compute
@@ -513,6 +613,9 @@ func genHistory(r *lib.Rng, maxOps int) (string, bool, *lib.LkReg, []*op) {
 				}
 				o.sched = strings.Join(sc, ",")
 			}
+			if o.kind != 'C' && r.Intn(6) == 0 {
+				nest(o.proto.MhType)
+			}
 			ops = append(ops, o)
 			live.do(o)
 		default:
@@ -526,6 +629,13 @@ func genHistory(r *lib.Rng, maxOps int) (string, bool, *lib.LkReg, []*op) {
 				}
 			}
 			o := &op{kind: 'G', form: "lrpf"[r.Intn(4)], link: l}
+			if r.Intn(5) == 0 {
+				mht := uint64(0x12)
+				if cl, err := lib.LkLinkFromBinary(l); err == nil {
+					mht = cl.(cidlink.Link).Prefix().MhType
+				}
+				nest(mht)
+			}
 			ops = append(ops, o)
 			live.do(o)
 		}
